@@ -140,7 +140,8 @@ class ElectionProfile:
             else:
                 profile.nBallots += multiplier
                 ranking = [rank[0] for rank in ranking] # possibly empty
-                self.ranking = array.array('B' if profile.nCand <= 256 else 'H', ranking)
+                typecode = 'B' if profile.nCand < 256 else 'H' if profile.nCand < 65536 else 'L'
+                self.ranking = array.array(typecode, ranking)
 
     def __validate(self):
         "check profile for internal consistency"
